@@ -11,16 +11,18 @@ from common import Ctx, MachineryError, pmap
 # deviation flag of the tree under test: do the multi-section / figure paths set the colour context?
 IMPL_SET_ON_ALL_PATHS = True
 COMPS = ["title", "subline", "header", "footnote", "source", "pghdr", "pgftr"]
-MODES = {"off", "plain", "text", "bg", "both"}
+MODES = {"off", "plain", "text", "bg", "both", "border"}
 BATTR = {"none", "text", "bg", "brd_left", "brd_top", "brd_right", "brd_bottom"}
 PATHS = {"single", "multi2", "multi3", "figure"}
 ALLIDX = set(range(1, 658))
 GEN = {
     "quick": [dict(name="all657", consts=dict(PathSet={"single"}, ColourIdx=ALLIDX, KSet={1}, ModeSet={"off"}, BodyAttrSet={"text"}, ShapeSet={"scalar"}, FontSet={1})),
               dict(name="paths", consts=dict(PathSet=PATHS, ColourIdx={26, 552}, KSet={2}, ModeSet={"off", "both"}, BodyAttrSet={"none", "text"}, ShapeSet={"matrix"}, FontSet={1})),
+              dict(name="borders", consts=dict(PathSet=PATHS, ColourIdx={26, 552}, KSet={2}, ModeSet={"off", "border"}, BodyAttrSet={"none", "brd_top"}, ShapeSet={"col"}, FontSet={1})),
               dict(name="sim", consts=dict(PathSet=PATHS, ColourIdx=ALLIDX, KSet=set(range(1, 9)), ModeSet=MODES, BodyAttrSet=BATTR, ShapeSet={"scalar", "col", "matrix"}, FontSet=set(range(1, 11))), simulate=700)],
     "thorough": [dict(name="all657", consts=dict(PathSet={"single", "multi2"}, ColourIdx=ALLIDX, KSet={1}, ModeSet={"off"}, BodyAttrSet={"text", "bg", "brd_top"}, ShapeSet={"scalar"}, FontSet={1})),
                  dict(name="paths", consts=dict(PathSet=PATHS, ColourIdx={26, 552}, KSet={2}, ModeSet={"off", "both"}, BodyAttrSet={"none", "text"}, ShapeSet={"matrix"}, FontSet={1})),
+              dict(name="borders", consts=dict(PathSet=PATHS, ColourIdx={26, 552}, KSet={2}, ModeSet={"off", "border"}, BodyAttrSet={"none", "brd_top"}, ShapeSet={"col"}, FontSet={1})),
                  dict(name="sim", consts=dict(PathSet=PATHS, ColourIdx=ALLIDX, KSet=set(range(1, 9)), ModeSet=MODES, BodyAttrSet=BATTR, ShapeSet={"scalar", "col", "matrix"}, FontSet=set(range(1, 11))), simulate=12000)],
 }
 JUDGE = ["C12_Resolve", "C12_Font", "C12_Complete"]
@@ -43,7 +45,8 @@ def spec_from_cfg(c):
         t = pal_at(c, j - 1) if mode in ("text", "both") else ""
         b = pal_at(c, j) if mode in ("bg", "both") else ""
         f = c["font"] if c["fcomp"] == j else 0
-        comp[name] = [t, b, f]
+        brd = pal_at(c, j + 1) if (mode == "border" and name in ("header", "footnote", "source") and c["path"] != "figure") else ""
+        comp[name] = [t, b, f, brd]
     sections = []
     for s in range(1, nsec(c) + 1):
         sec = dict(n=2, m=2)
@@ -103,6 +106,8 @@ def run_one(sc):
             if u[0] == "body":
                 kind = {"text": "cf", "bg": "cb"}.get(u[1], "brdr")
                 role = "body%d.%d.%d" % (u[3], u[4], u[5]) + ("." + u[1][4:] if kind == "brdr" else "")
+            elif u[1] == "brdr_top":
+                kind, role = "brdr", u[0] + ".top"
             else:
                 kind, role = u[1], u[0]
             if obs.get((role, kind)) != idx:
